@@ -1,9 +1,70 @@
 #!/usr/bin/env python3
-import json, glob, os
-print("| seeded change | what it breaks (clause) | what it needs | result of the check |")
-print("|---|---|---|---|")
-for d in sorted(glob.glob('/verif/seeded/*')):
-    m=json.load(open(d+'/meta.json'))
-    def c(s,n): 
-        s=str(s).replace("|","/").replace("\n"," "); return s[:n]+("…" if len(s)>n else "")
-    print(f"| {os.path.basename(d)} | {c(m.get('clause',''),110)} | {c(m.get('needs',''),150)} | {c(m['verified']['check'],200)} |")
+"""Regenerates the 'Seeded changes' and 'Harmless rewrites' sections of DESIGN.md from seeded/*/meta.json and harmless/*/meta.json."""
+import json, glob, os, collections, re
+V = os.path.dirname(os.path.dirname(os.path.abspath(__file__)))
+def c(s, n):
+    s = str(s).replace("|", "/").replace("\n", " "); return s[:n] + ("…" if len(s) > n else "")
+rows = []; cnt = collections.Counter()
+def key(d):
+    b = os.path.basename(d); p, k = b.split('-'); return (p, int(k))
+for d in sorted(glob.glob(V + '/seeded/*'), key=key):
+    m = json.load(open(d + '/meta.json')); r = m.get('round', 1); t = m['verified']['check']; tl = t.lower()
+    if 'missed' in tl[:60]: k = 'missed'
+    elif 'no-failing-input-found' in tl[:80]: k = 'witnessless'
+    else: k = 'caught'
+    cnt[(r, k)] += 1
+    rows.append(f"| {os.path.basename(d)} | {r} | {c(m.get('clause',''),110)} | {c(m.get('needs',''),150)} | {c(t,220)} |")
+tot = len(rows)
+per = "; ".join(f"round {r}: {sum(cnt[(r,k)] for k in ('caught','witnessless','missed'))} changes — {cnt[(r,'caught')]} caught at the first trial with a concrete replay, {cnt[(r,'witnessless')]} first caught only as `no-failing-input-found`, {cnt[(r,'missed')]} missed" for r in sorted({r for r, _ in cnt}))
+hrows = []; hq = ha = hfixed = 0
+for d in sorted(glob.glob(V + '/harmless/*'), key=key):
+    m = json.load(open(d + '/meta.json')); f = m.get('first_trial', {}); now = m.get('now')
+    if f.get('rc') == 0: hq += 1
+    else:
+        ha += 1
+        if now and now.get('rc') == 0: hfixed += 1
+    hrows.append(f"| {os.path.basename(d)} | {c(m.get('kind',''),70)} | {c(', '.join(m.get('files',[])),60)} | {'quiet' if f.get('rc')==0 else 'ALARM (no-failing-input-found)'} | {('quiet' if now['rc']==0 else 'alarm') if now else ''} |")
+text = f"""### Seeded changes (independent sub-agents, property text only)
+
+In three rounds, for every property, source changes were produced by fresh
+sub-agents that saw only the property text and a scratch worktree (never
+`/verif`); each keeps the whole 470-test suite green and comes with a
+demonstration that fails with it and passes without it (all re-confirmed by me:
+`tools/try_seed*.sh` apply the patch — rounds 1–2 to `/repo` itself, later to a
+scratch worktree read through `VERIF_REPO` so that builder agents could keep
+working —, run the suite, the demonstration and `./check`, and revert).  They
+are kept under `seeded/<id>-<k>/` (`patch.diff`, `demo.py`, `meta.json`).
+{tot} changes: {per}.  Every miss and every witness-less catch led to a
+strengthening of the generator / oracle / model / translator (recorded per
+row, never a special case for the change); all {tot} are now reported with a
+concrete replay (`tools/regress.sh <id>` re-runs a property's whole corpus) and
+the unchanged tree still passes for seeds 0–3.  The first-trial catch rate rose
+from round to round, which is the evidence that the strengthenings generalise.
+
+| seeded change | round | what it breaks (clause) | what it needs | result of the check |
+|---|---|---|---|---|
+""" + "\n".join(rows) + f"""
+
+### Harmless rewrites (false-alarm trials)
+
+Fresh sub-agents (property text + worktree only) were also asked for strictly
+behaviour-preserving rewrites of the code each property lives in (helper
+extraction, renames, equivalent conditions, hoisted constants, C locals /
+macros); kept under `harmless/<id>-<k>/`.  {hq + ha} rewrites: {hq} left the check
+quiet at the first trial; {ha} made a translator-based tie alarm (`VIOLATION …
+no-failing-input-found`, which is what the brief prescribes when a proof
+obligation breaks and no failing input exists — but an alarm on code where the
+property holds all the same), all of them in the translators (C, TLS machine,
+crypto tables, log IR), none in a hand-written model tied by correspondence.
+The translators were then generalised (inlining of private helpers, guard
+normalisation, evaluation instead of syntactic matching); {hfixed} of the {ha} are
+quiet now (column "now").
+
+| rewrite | kind | files | first trial | now |
+|---|---|---|---|---|
+""" + "\n".join(hrows) + "\n\n"
+s = open(V + '/DESIGN.md').read()
+a = s.index("### Seeded changes (independent sub-agents, property text only)")
+b = s.index("--------------------------------------------------------------------------", a)
+open(V + '/DESIGN.md', 'w').write(s[:a] + text + s[b:])
+print("DESIGN.md updated:", tot, "seeded,", hq + ha, "harmless")
